@@ -210,6 +210,64 @@ def filing_skeleton(smp, device):
     return res
 
 
+# ----------------------------------------------------------------------------- order of statements in the handlers
+_SET = {'self.bonding', 'self.sc', 'self.ct2', 'self.preq', 'self.pres', 'self.peer_io_capability',
+        'self.pairing_method', 'self.r', 'self.initiator_key_distribution', 'self.responder_key_distribution',
+        '(self.initiator_key_distribution, self.responder_key_distribution)', 'accepted'}
+_CALL = {'self.decide_pairing_method', 'self.compute_peer_expected_distributions',
+         'self.send_pairing_response_command', 'self.send_public_key_command', 'self.send_pairing_confirm_command',
+         'self.display_or_input_passkey', 'self.display_passkey', 'self.distribute_keys', 'self.send_pairing_failed',
+         'self.manager.on_session_start', 'self.on_peer_key_distribution_complete',
+         'self.pairing_config.delegate.accept', 'self.pairing_config.delegate.key_distribution_response'}
+
+
+def _calls_in(node):
+    """interesting calls inside an expression, innermost first (evaluation order)"""
+    found = []
+    for sub in ast.walk(node):
+        if isinstance(sub, ast.Call) and _u(sub.func) in _CALL:
+            found.append((sub.lineno, sub.col_offset, f'{_u(sub.func)}({", ".join(_u(a) for a in sub.args)})'))
+    return [t for _, _, t in sorted(found, reverse=True)]
+
+
+def _order(stmts, depth, out):
+    for st in stmts:
+        if isinstance(st, ast.If):
+            out.append((f'{depth}:if', _u(st.test)))
+            _order(st.body, depth + 1, out)
+            if st.orelse:
+                out.append((f'{depth}:else', ''))
+                _order(st.orelse, depth + 1, out)
+        elif isinstance(st, ast.Assign) and len(st.targets) == 1:
+            for c in _calls_in(st.value):
+                out.append((f'{depth}:call', c))
+            if _u(st.targets[0]) in _SET:
+                out.append((f'{depth}:set {_u(st.targets[0])}', _u(st.value)))
+        elif isinstance(st, ast.Expr):
+            for c in _calls_in(st.value):
+                out.append((f'{depth}:call', c))
+        elif isinstance(st, ast.Return):
+            out.append((f'{depth}:return', '' if st.value is None else _u(st.value)))
+        elif isinstance(st, ast.Try):
+            out.append((f'{depth}:try', ''))
+            _order(st.body, depth + 1, out)
+            for hnd in st.handlers:
+                out.append((f'{depth}:except', ''))
+                _order(hnd.body, depth + 1, out)
+        elif isinstance(st, (ast.For, ast.While, ast.AsyncFor, ast.With, ast.AsyncWith)):
+            raise SkeletonError(f'handler: unexpected `{_u(st)[:50]}`')
+
+
+def handler_order(smp):
+    res = {}
+    for name, fn in (('request_handler', smp.Session.on_smp_pairing_request_command_async),
+                     ('response_handler', smp.Session.on_smp_pairing_response_command)):
+        out = []
+        _order(_fn(fn).body, 0, out)
+        res[name] = out
+    return res
+
+
 def render():
     from bumble import device, smp
     KD = {n: int(getattr(smp.KeyDistribution, n)) for n in ('ENC_KEY', 'ID_KEY', 'SIGN_KEY', 'LINK_KEY')}
@@ -252,5 +310,12 @@ def render():
     for name, rows in filing_skeleton(smp, device).items():
         lines.append(f'Definition {name}_source : list (string * string * string) := [')
         lines.append(';\n'.join(f'  ({_coq_string(n)}, {_coq_string(g)}, {_coq_string(v)})' for n, g, v in rows))
+        lines.append('].')
+    lines.append('')
+    lines.append('(* the negotiation handlers: assignments of the negotiated fields, decisions, sends and tests, in')
+    lines.append('   source order with their nesting depth *)')
+    for name, rows in handler_order(smp).items():
+        lines.append(f'Definition {name}_source : list (string * string) := [')
+        lines.append(';\n'.join(f'  ({_coq_string(k)}, {_coq_string(v)})' for k, v in rows))
         lines.append('].')
     return '\n'.join(lines) + '\n'
